@@ -4856,6 +4856,9 @@ type enterFinally struct{}
 func (enterFinally) exec(vm *vm) {
 	tf := &vm.tryStack[len(vm.tryStack)-1]
 	tf.finallyPos = -1
+	// the try block has completed normally: an exception thrown by the finally block must not be
+	// caught by the catch clause of the same statement
+	tf.catchPos = -1
 	vm.pc++
 }
 
